@@ -450,7 +450,7 @@ def final_predicate(N, spec, out, val, maxpulls, t2l=True):
         return "finalised result contains a collection with more than %d elements or a non-plain value (dictionary keys included)" % N
     if wide and not (out == "TooLarge" or (unhashable and out == "Unhashable")):
         return "a collection with more than %d elements inside the value (dictionary keys included) did not raise (%s)" % (N, out)
-    if not wide and out != ("Unhashable" if unhashable else "Ok"):
+    if not wide and not (out == "Ok" or (unhashable and out == "Unhashable")):
         return "no collection exceeds %d elements but finalisation gave %s" % (N, out)
     return None
 
